@@ -222,7 +222,7 @@ def repr_queries(chk):
         except Exception as e:
             # the body left the translatable fragment: decide by concrete evaluation is not this technique -> inconclusive,
             # but a body that is plainly wrong on a witness is still a reproducible violation
-            _repr_concrete(chk, name, "translator: %s" % e)
+            _repr_corpus(chk, name, "translator: %s" % e)
             continue
         r = "unsat"
         s = None
@@ -263,6 +263,33 @@ def repr_queries(chk):
             chk.ev.coverage["queries"]["inconclusive"] += 1
             chk.inconc("repr(%s): z3 %s" % (name, r))
     chk.ev.coverage["solver_seconds"] += round(time.time() - t0, 2)
+
+
+def _repr_corpus(chk, name, why):
+    """the body left the translatable fragment (only on a changed tree): CrossHair runs the real __repr__ on a corpus of
+    uris (long, blanks, tabs, line breaks, non-ASCII) and boundary numbers chosen by symbolic indices.  A counterexample
+    is a reproducible violation; exhausting the corpus does NOT decide the clause - it stays inconclusive."""
+    k = ["Position", "Range", "Location"].index(name)
+    from props import c20rt
+
+    pre = ["0 <= i < %d" % (len(c20rt.REPR_URIS) if k == 2 else 1)] + ["0 <= %s < %d" % (n, len(c20rt.REPR_INTS)) for n in ("ai", "bi")] + ["0 <= %s < %d" % (n, len(c20rt.REPR_INTS) if k else 1) for n in ("ci", "di")]
+    lm = xh.Lemma("repr_corpus_%d" % k, [(n, "int") for n in ("i", "ai", "bi", "ci", "di")], ["return V.repr_corpus(%d, i, ai, bi, ci, di)" % k], pre=pre, meta={"site": "repr " + name})
+    res, st = xh.run([lm], PREAMBLE, timeout=120, label="c20r")
+    r = res[lm.id]
+    chk.ev.coverage["solver_seconds"] += st["cpu_s"]
+    if r.verdict == "refuted" and r.args is not None:
+        a = r.args
+        code = "from props import c20rt as V\ndef replay():\n    a = %r\n    ok = V.repr_corpus(%d, a['i'], a['ai'], a['bi'], a['ci'], a['di'])\n    return (bool(ok), 'repr(%s) is not the documented text for uri %%r' %% (V.REPR_URIS[a['i']],))\n" % (a, k, name)
+        env = {}
+        exec(code, env)
+        ok, detail = env["replay"]()
+        if not ok:
+            chk.ev.coverage["queries"]["refuted"] += 1
+            chk.violation("repr(%s): %s" % (name, detail), {"kind": "python", "code": code, "site": "repr " + name, "args": a})
+            return
+        chk.harness_error("counterexample for repr(%s) did not reproduce" % name)
+        return
+    _repr_concrete(chk, name, why + " (corpus lemma: %s)" % r.verdict)
 
 
 def _repr_concrete(chk, name, why):
